@@ -56,9 +56,9 @@ def alt_cost(point, alt):
   if alt == 0:
     return 0
   if not FREE_FORCED[0]:
-    return 0 if point['kinds'][alt] == 'gate0' else 1
-  if point['kinds'][alt] == 'gate0':
-    return 0      # an external trigger the harness declared free (e.g. the operator's abort)
+    return 0 if point['kinds'][alt] in ('gate0', 'signal0') else 1
+  if point['kinds'][alt] in ('gate0', 'signal0'):
+    return 0      # an external trigger the harness declared free (e.g. the operator's abort / Ctrl-C)
   if point['cur_enabled']:
     return 1
   kind = point['kinds'][alt]
